@@ -34,9 +34,23 @@ pub fn focus_txn(g: &mut LedgerGen) -> Txn {
         // sum, sign and ratio are representable, their product is not - and nothing needs it
         let (x, y) = g.two_commodities().unwrap();
         t.postings.clear();
-        for c in [x, y] {
-            let v = Dec::new(100_000_000_000_000 + g.rng.below(899_000_000_000_000) as i64, 0);
-            let v = if g.rng.chance(1, 2) { -v } else { v };
+        let big = |g: &mut LedgerGen| Dec::new(100_000_000_000_000 + g.rng.below(899_000_000_000_000) as i64, 0);
+        let a = big(g);
+        let b = big(g);
+        let sa = if g.rng.chance(1, 2) { -Dec::ONE } else { Dec::ONE };
+        let sb = if g.rng.chance(1, 3) { sa } else { -sa };
+        let mut amounts: Vec<(String, Dec)> = Vec::new();
+        if g.rng.chance(1, 2) {
+            // ... or two large postings of one commodity that cancel but for a sliver: the implied
+            // rate (a large total over a sliver) times either large posting is out of range too
+            let sliver = Dec::new(1 + g.rng.below(99) as i64, 4);
+            amounts.push((x.clone(), sa * a));
+            amounts.push((x.clone(), -sa * (a - sliver)));
+        } else {
+            amounts.push((x.clone(), sa * a));
+        }
+        amounts.push((y.clone(), sb * b));
+        for (c, v) in amounts {
             let mut p = Posting::new(&g.pick_account());
             p.amount = Some(g.lit(v, &c));
             t.postings.push(p);
